@@ -1,4 +1,4 @@
-import H2T.Lemmas.Shrink
+import H2T.Lemmas.FitsTable
 
 /-! # C06 — table cells stay in their columns; columns with text get space
 
@@ -31,6 +31,25 @@ theorem shrink_step (ws : List Nat) (i : Nat) (hi : i < ws.length) (hp : 0 < ws[
 theorem shrunk_column_positive (ws : List Nat) (cs : List SizeEst) (hl : ws.length ≤ cs.length) (hs : 0 < ws.sum) :
     ∃ k i, argmaxCol ws cs 0 none = some (k, i) ∧ ∃ hi : i < ws.length, 0 < ws[i] :=
   argmax_pos ws cs hl hs
+
+/-- **the allocation as a whole**: whatever `render_table_tree` decides for a table given `width` columns — stacked
+    (every cell gets the full width) or side by side (column widths `ws`) — the table's own width is at most `width`,
+    and side by side `Σ ws + (n − 1) ≤ width` (one separator per column boundary) -/
+theorem table_fits (cfg : Cfg) (width : Nat) (cols : List SizeEst) (ws : List Nat) (vert : Bool) (tw : Nat)
+    (h : allocCols cfg width cols = .ok (ws, vert, tw)) :
+    tw ≤ width ∧ (vert = true → ∀ x ∈ ws, x ≤ width) ∧ (vert = false → ws.sum + ws.length ≤ width + 1) :=
+  allocCols_ok cfg width cols ws vert tw h
+
+/-- **cells of one row**: cells that occupy disjoint, increasing column ranges (`wfCells`, which `compile` guarantees:
+    `compileCells_wf`) are rendered into renderers whose widths plus separators add up to at most the widths plus
+    separators of the columns from `next` on — so no cell reaches into a column of a later cell, and the row is no
+    wider than the table -/
+theorem row_cells_fit (wm : SubR → Cfg → Nat → Nat → Except Err Nat) (cfg : Cfg) (d : Deco) (hwm : WMContract wm cfg)
+    (hov : cfg.overflow = false) (cells : List Op) (ws : List Nat) (ann : Tag) (links l2 : List (List Ch)) (next : Nat)
+    (subs : List SubR) (hwf : wfCells next cells = true)
+    (h : runCells wm cfg d ws false ann links cells = .ok (l2, subs)) :
+    (subs.map fun c => c.width + 1).sum ≤ (ws.drop next).sum + (ws.length - next) :=
+  (runCells_fitsT wm cfg d hwm hov cells ws false ann links next l2 subs hwf h).2.2 rfl
 
 /-! non-vacuity: three columns of 10 at width 12 are taken down to 3+3+4 (+2 separators = 12) -/
 example : (shrinkLoop 12 [{ minW := 1 }, { minW := 1 }, { minW := 1 }] 40 [10, 10, 10]).toOption = some [3, 3, 4] := by decide
